@@ -119,6 +119,14 @@ def track(prog: Dict[str, Any], seed: int, backward: bool = True, calls: Optiona
         return "double" if mode.startswith("dd") else mode.startswith("fb")
 
     for mode in modes:
+        if mode == "inspect":
+            # the user looks at the graph between two calls with the COPYING helpers: purely observational
+            from unit_scaling.transforms import prune_non_float_tensors, prune_same_scale_tensors
+
+            gi = t.scales_graph()
+            prune_same_scale_tensors(prune_non_float_tensors(gi))
+            prune_same_scale_tensors(gi, 2.0**-2)
+            continue
         for p in t.parameters():
             p.grad = None
         if prog.get("flag_tail") and not tier_a:
